@@ -22,8 +22,9 @@
 
   Observation of W: `n=<count> f=<hex>,…` or `err=<class>`, then ` v=<name>:<value>,…` for the
   variables x y e u r.  Observation of R: `st=<exit status> v=v1:<hex>,…`.
-  Spec column: `=<observation>` predicted with the recursive POSIX splitter (`specFields`,
-  `specRead`) in place of the state machine.
+  Spec column: `=<observation>` predicted by the declarative POSIX expansion of Spec.lean
+  (`posixExpandArgs`, `posixExpandSingle`, `posixExpandText`: fields as lists, XCU 2.6.2 table,
+  recursive splitter `specFields`) and by `specRead`.
 -/
 import YashModel.Common.Proto
 import YashModel.Expansion.Model
@@ -240,23 +241,14 @@ def obsSingle (r : Env × Except Err (List Char)) : Env × Except Err (List (Lis
 
 /-- the contexts in which the harness places the words -/
 def runCtx (spec : Bool) (ctx : String) (env : Env) (ws : List Word) : Option (Env × Except Err (List (List Char))) :=
-  let multi := fun (e : Env) (w : Word) => if spec then specExpandWordMultiple e w else expandWordMultiple e w
-  let rec many (e : Env) : List Word → Env × Except Err (List (List Char))
-    | [] => (e, .ok [])
-    | w :: rest =>
-      match multi e w with
-      | (e', .error x) => (e', .error x)
-      | (e', .ok fs) =>
-        match many e' rest with
-        | (e'', .error x) => (e'', .error x)
-        | (e'', .ok gs) => (e'', .ok (fs ++ gs))
   match ctx, ws with
-  | "arg", _ => some (if spec then many env ws else expandWords env ws)
-  | "for", _ => some (if spec then many env ws else expandWords env ws)
-  | "arr", _ => some (if spec then many env ws else expandWords env ws)
-  | "asg", [w] => some (obsSingle (expandWordSingle env w))
-  | "exp", [w] => some (obsSingle (expandWordSingle env w))
-  | "here", [w] => (wordToText w).map (fun ts => obsSingle (expandTextJoined env (mkText ts)))
+  | "arg", _ => some (if spec then posixExpandArgs env ws else expandWords env ws)
+  | "for", _ => some (if spec then posixExpandArgs env ws else expandWords env ws)
+  | "arr", _ => some (if spec then posixExpandArgs env ws else expandWords env ws)
+  | "asg", [w] => some (obsSingle (if spec then posixExpandSingle env w else expandWordSingle env w))
+  | "exp", [w] => some (obsSingle (if spec then posixExpandSingle env w else expandWordSingle env w))
+  | "here", [w] => (wordToText w).map (fun ts =>
+      obsSingle (if spec then posixExpandText env (mkText ts) else expandTextJoined env (mkText ts)))
   | _, _ => none
 
 def showRVal (o : Option (List Char)) : String :=
